@@ -4,6 +4,7 @@ import NibabelModel.Lemmas.C08_Trk
 import NibabelModel.Lemmas.C08_Tck
 import NibabelModel.Lemmas.C08_Ext
 import NibabelModel.Lemmas.C08_TckHdr
+import NibabelModel.Lemmas.C08_TckChunk
 import NibabelModel.Generated.C08
 /-! Props/C08 — the property theorems for C08 (a truncated file is never read back as different data). -/
 namespace Nb.C08
@@ -455,6 +456,157 @@ example : 100 < (tckWrite tckEx).length := by decide +kernel
 
 example : tckRead (Src.plain (tckWrite tckEx)) = .ok tckEx.streams := by decide +kernel
 
+/-! ### pairs whose image file holds the data at a non-zero `vox_offset`; partial reads of pairs -/
+
+/-- **pair_prefix_header_at.**  `pair_prefix_header` for a pair written with any data offset
+    (`hdr.set_data_offset(o)`: the `.img` file is `o` zero bytes ‖ data, the header stores `o`), header
+    member cut anywhere, plain or behind a decompressor: raises or returns exactly the written data. -/
+theorem pair_prefix_header_at (fmt : VolFmt) (img : Img) (hH : fmt.hdrSize = 16 + img.fill.length)
+    (hd : img.data.length < 2 ^ 64) (hp : img.pad.length < 2 ^ 64) (hf : fmt.fixedOff = none) (um : Bool)
+    (m : Nat) (st : Bool) :
+    Safe (readPair fmt um ⟨(writeHdrFileAt fmt img).take m, st⟩ (Src.plain (writeImgFileAt img))) img.data := by
+  simp only [readPair]
+  split
+  · rename_i e _; exact Or.inr ⟨e, rfl⟩
+  · rename_i n off hh
+    have hfile : writeHdrFileAt fmt img =
+        hdrBlock img img.pad.length ++ (if fmt.exts then img.extender ++ extBytes img else []) := rfl
+    rw [hfile] at hh
+    obtain ⟨hn, hoff, _⟩ := header_fields fmt img img.pad.length _ false m st n off hH hd hp hh
+    rw [hf] at hoff
+    have := readData_ok um img.pad img.data [] (img.pad.length + img.data.length) (by simp)
+    rw [List.take_of_length_le (by simp)] at this
+    simp only [hn, hoff, Option.getD_none, writeImgFileAt, Src.plain]
+    exact Or.inl (by simpa using this)
+
+/-- **pair_prefix_image_at.**  The image member (`pad ‖ data`, at least one voxel) cut anywhere before its
+    end, header file intact: always an error — with `mmap` (numpy refuses the map) and without. -/
+theorem pair_prefix_image_at (fmt : VolFmt) (img : Img) (hH : fmt.hdrSize = 16 + img.fill.length)
+    (hd : img.data.length < 2 ^ 64) (hp : img.pad.length < 2 ^ 64) (hf : fmt.fixedOff = none)
+    (hne : img.data ≠ []) (um : Bool) (m : Nat) (st : Bool) (hm : m < (writeImgFileAt img).length) :
+    ∃ e, readPair fmt um (Src.plain (writeHdrFileAt fmt img)) ⟨(writeImgFileAt img).take m, st⟩ = .error e := by
+  simp only [readPair]
+  split
+  · rename_i e _; exact ⟨e, rfl⟩
+  · rename_i n off hh
+    have hfile : Src.plain (writeHdrFileAt fmt img) =
+        ⟨(writeHdrFileAt fmt img).take (writeHdrFileAt fmt img).length, false⟩ := by
+      rw [List.take_length]; rfl
+    rw [hfile] at hh
+    obtain ⟨hn, hoff, _⟩ := header_fields fmt img img.pad.length
+      (if fmt.exts then img.extender ++ extBytes img else []) false _ false n off hH hd hp hh
+    rw [hf] at hoff
+    have := readData_prefix um img.pad img.data [] m st
+    simp only [List.append_nil] at this
+    simp only [hn, hoff, Option.getD_none, writeImgFileAt]
+    simp only [writeImgFileAt, List.length_append] at hm
+    rcases this.1 with h1 | ⟨e, he⟩
+    · rcases this.2 h1 with h0 | h0
+      · exact absurd h0 hne
+      · omega
+    · exact ⟨e, he⟩
+
+/-- **pair_slice_prefix.**  A partial read `img.dataobj[idx]` of a PAIR, header file and image file each
+    replaced by any prefix source (`mh`/`mi` bytes, EOF or error at the end; `mh`, `mi` beyond the length =
+    intact): if it returns at all, the header yielded the written offset and the bytes are exactly those
+    the complete image file holds at the segments the C06 model of `calc_slicedefs` computes for that
+    offset, every non-empty segment lying inside the image-file prefix. -/
+theorem pair_slice_prefix (fmt : VolFmt) (img : Img) (hH : fmt.hdrSize = 16 + img.fill.length)
+    (hd : img.data.length < 2 ^ 64) (hp : img.pad.length < 2 ^ 64) (hf : fmt.fixedOff = none)
+    (idx : List C06.IdxItem) (shape : List Nat) (isz : Nat) (mh mi : Nat) (sth sti : Bool) :
+    let file := writeImgFileAt img
+    ∀ b, readSlicePair fmt ⟨(writeHdrFileAt fmt img).take mh, sth⟩ ⟨file.take mi, sti⟩ idx shape isz = .ok b →
+      ∃ d segs, C06.calcSlicedefs (C06.thresholdHeuristic skipThresh) idx shape isz img.pad.length .F = .ok d ∧
+        natSegs d.segments = some segs ∧ b = sliceBytes file segs ∧
+        ∀ sg ∈ segs, 0 < sg.2 → sg.1 + sg.2 ≤ mi := by
+  intro file b h
+  simp only [readSlicePair] at h
+  split at h
+  · cases h
+  · rename_i n off hh
+    have hfile : writeHdrFileAt fmt img =
+        hdrBlock img img.pad.length ++ (if fmt.exts then img.extender ++ extBytes img else []) := rfl
+    rw [hfile] at hh
+    obtain ⟨_, hoff, _⟩ := header_fields fmt img img.pad.length _ false mh sth n off hH hd hp hh
+    rw [hf] at hoff
+    simp only [Option.getD_none] at hoff
+    subst hoff
+    simp only [readSliceAt] at h
+    split at h
+    · cases h
+    · rename_i d hd'
+      split at h
+      · cases h
+      · rename_i segs hs
+        have hpfx := readSegments_prefix file mi sti segs
+        rcases hpfx.1 with h1 | ⟨e, he⟩
+        · refine ⟨d, segs, hd', hs, ?_, hpfx.2 h1⟩
+          rw [h1] at h; cases h; rfl
+        · rw [he] at h; cases h
+
+/-- **pair_tail_prefix.**  The one-segment partial read (`dataobj[..., -1]`: data bytes from `a` on) of a pair
+    with either member cut: raises or returns exactly that part of the written data. -/
+theorem pair_tail_prefix (fmt : VolFmt) (img : Img) (hH : fmt.hdrSize = 16 + img.fill.length)
+    (hd : img.data.length < 2 ^ 64) (hp : img.pad.length < 2 ^ 64) (hf : fmt.fixedOff = none)
+    (a : Nat) (ha : a ≤ img.data.length) (mh mi : Nat) (sth sti : Bool) :
+    Safe (readTailPair fmt ⟨(writeHdrFileAt fmt img).take mh, sth⟩ ⟨(writeImgFileAt img).take mi, sti⟩ a)
+      (img.data.drop a) := by
+  simp only [readTailPair]
+  split
+  · rename_i e _; exact Or.inr ⟨e, rfl⟩
+  · rename_i n off hh
+    have hfile : writeHdrFileAt fmt img =
+        hdrBlock img img.pad.length ++ (if fmt.exts then img.extender ++ extBytes img else []) := rfl
+    rw [hfile] at hh
+    obtain ⟨hn, hoff, _⟩ := header_fields fmt img img.pad.length _ false mh sth n off hH hd hp hh
+    rw [hf] at hoff
+    simp only [Option.getD_none] at hoff
+    have hpre : (img.pad ++ img.data.take a).length = img.pad.length + a := by
+      simp; omega
+    have hfile2 : writeImgFileAt img = (img.pad ++ img.data.take a) ++ img.data.drop a ++ [] := by
+      simp [writeImgFileAt, List.append_assoc]
+    have := segRead_prefix (img.pad ++ img.data.take a) (img.data.drop a) [] mi sti
+    rw [hpre, List.length_drop, ← hfile2] at this
+    rw [hn, hoff]
+    exact this
+
+
+/-- an Analyze-like pair with the data at offset 3 of the image file: hypotheses hold, the complete pair
+    loads, and the image file cut inside the data raises -/
+example : let fmt : VolFmt := ⟨20, 0, false, none, 0⟩
+    let img : Img := { fill := [1, 2, 3, 4], extender := [], exts := [], pad := [0, 0, 0], data := [5, 6, 7, 8], footer := [] }
+    fmt.hdrSize = 16 + img.fill.length ∧ img.data ≠ [] ∧ 5 < (writeImgFileAt img).length ∧
+    readPair fmt true (Src.plain (writeHdrFileAt fmt img)) (Src.plain (writeImgFileAt img)) = .ok [5, 6, 7, 8] ∧
+    readPair fmt true (Src.plain (writeHdrFileAt fmt img)) (Src.plain ((writeImgFileAt img).take 5)) = .error .trunc ∧
+    readTailPair fmt (Src.plain (writeHdrFileAt fmt img)) (Src.plain (writeImgFileAt img)) 2 = .ok [7, 8] := by
+  decide +kernel
+
+/-! ### TCK: the chunked loop -/
+
+/-- **tck_chunked_eq.**  `TckFile._read` fetches the data in chunks of `buffer_size` bytes (a positive
+    multiple of 12), carries the leftover triples into the next chunk, and stops at the first short chunk.
+    For EVERY source (any bytes at all, EOF or error at the end), every data offset and every such buffer
+    size the chunked loop returns exactly what the whole-buffer model `tckData` returns — same streamlines
+    or same error; hence the complete reader `tckReadB B` equals `tckRead`. -/
+theorem tck_chunked_eq (B : Nat) (hB0 : 0 < B) (hB : B % 12 = 0) (s : Src) :
+    (∀ off, tckDataChunked B s off = tckData s off) ∧ tckReadB B s = tckRead s :=
+  ⟨tckDataChunked_eq B hB0 hB s, tckReadB_eq B hB0 hB s⟩
+
+/-- **tck_prefix_chunked.**  `tck_prefix` for the reader as it really loops, for every buffer size — in
+    particular the one the working tree uses (`Gen.tckBufferBytes`, measured by `regen()`), and for the
+    12/24/36…-byte buffers the correspondence runs the real code with. -/
+theorem tck_prefix_chunked (B : Nat) (hB0 : 0 < B) (hB : B % 12 = 0) (t : Tck)
+    (hlines : ∀ l ∈ t.lines, GoodLine l) (hl : StreamsWF t.streams) (m : Nat) (st : Bool)
+    (hm : m < (tckWrite t).length) :
+    ∃ e, tckReadB B ⟨(tckWrite t).take m, st⟩ = .error e := by
+  rw [tckReadB_eq B hB0 hB]; exact tck_prefix t hlines hl m st hm
+
+/-- the example file read in 24-byte chunks (a streamline spans two chunks) reads back completely; cut
+    before the final `inf` triple it raises -/
+example : tckReadB 24 (Src.plain (tckWrite tckEx)) = .ok tckEx.streams ∧
+    tckReadB 24 (Src.plain ((tckWrite tckEx).take ((tckWrite tckEx).length - 12))) = .error .trunc := by
+  decide +kernel
+
 /-! ### XML formats: through the expat contract only -/
 
 /-- **xml_prefix.**  Under the expat contract written into `xmlRead` ("a document lacking its root end
@@ -511,7 +663,8 @@ example : 3 < (markerCodec.compress [1, 2, 3]).length := by decide
     delimiters are recognised as NaN / inf triples by the model's float classifier, and every writable
     volume class has a layout the volume theorems apply to (header block of at least 16 bytes, sniff
     within the header block; a format with a footer has a fixed data offset, no extension section and
-    no sniff — the hypotheses of `mgh_prefix`). -/
+    no sniff — the hypotheses of `mgh_prefix`); the measured TCK read buffer is a positive multiple of 12
+    (the hypothesis of `tck_chunked_eq`). -/
 theorem gen_constants_ok :
     Gen.trkHdrSize = trkHdrSize ∧ Gen.trkDtypeSize = trkHdrSize ∧ Gen.trkOffNsc = trkOffNsc ∧
     Gen.trkOffNpr = trkOffNpr ∧ Gen.trkOffCount = trkOffCount ∧ Gen.trkOffVersion = trkOffVersion ∧
@@ -519,8 +672,20 @@ theorem gen_constants_ok :
     Gen.tckMagic = tckMagic ∧ Gen.tckFiberDelim = nanTriple ∧ Gen.tckEofDelim = infTriple ∧
     tripleAll f32IsNaN nanTriple = true ∧ tripleAll f32IsInf infTriple = true ∧
     Gen.sniffMax = 1024 ∧ Gen.skipThresh = skipThresh ∧
+    0 < Gen.tckBufferBytes ∧ Gen.tckBufferBytes % 12 = 0 ∧
     (∀ f ∈ Gen.volFmts, 16 ≤ f.hdrSize ∧ f.sniffLen ≤ f.hdrSize ∧ f.sniffLen ≤ Gen.sniffMax ∧
       (f.footer ≠ 0 → f.fixedOff.isSome ∧ f.exts = false ∧ f.sniffLen = 0)) := by
   decide
+
+/-- **tck_prefix_shipped_buffer.**  `tck_prefix` for the chunked reader with the buffer size the working
+    tree really uses (`Gen.tckBufferBytes`, measured by `regen()` on every run with a recording file
+    object; the proof re-checks that it is a positive multiple of 12). -/
+theorem tck_prefix_shipped_buffer (t : Tck) (hlines : ∀ l ∈ t.lines, GoodLine l) (hl : StreamsWF t.streams)
+    (m : Nat) (st : Bool) (hm : m < (tckWrite t).length) :
+    ∃ e, tckReadB Gen.tckBufferBytes ⟨(tckWrite t).take m, st⟩ = .error e :=
+  tck_prefix_chunked Gen.tckBufferBytes (by decide) (by decide) t hlines hl m st hm
+
+example : tckReadB Gen.tckBufferBytes (Src.plain (tckWrite tckEx)) = .ok tckEx.streams := by
+  rw [tckReadB_eq _ (by decide) (by decide)]; decide +kernel
 
 end Nb.C08
